@@ -11,7 +11,8 @@ SHAPES = [(), (1,), (2,), (3,), (5,), (2, 3), (3, 2), (2, 1, 3), (1, 4),
 NAMES = ['ref', 'calc', 'run_2', 'T4 v11', 'a.b-c']
 
 
-def datasets(rng, shape, nds, fail, nan=False, plain_dims=False):
+def datasets(rng, shape, nds, fail, nan=False, plain_dims=False,
+             decreasing=False):
     '''A reference and `nds` datasets of the given shape; `fail` chooses the
     failing pattern per dataset: 'none', 'one', 'first', 'last', 'all',
     'random'.  Values are unique 5-digit numbers so that a table cell
@@ -31,6 +32,13 @@ def datasets(rng, shape, nds, fail, nan=False, plain_dims=False):
                     bins[name][-1] = 1e7
         else:
             bins[name] = np.arange(dim) * 2.0 + 0.25 + 10 * i
+    if decreasing:
+        # bins listed from the highest to the lowest (legal for a Dataset;
+        # some spectra are printed that way); every dataset gets its own
+        # arrays
+        for name in list(bins):
+            if len(bins[name]) >= 3 and rng.random() < 0.6:
+                bins[name] = bins[name][::-1].copy()
     base = (np.arange(size, dtype=float) * 1.25 + 1.5).reshape(shape)
     err = np.full(shape, 0.125)
     if not shape:
@@ -74,8 +82,9 @@ def datasets(rng, shape, nds, fail, nan=False, plain_dims=False):
             val, derr = np.float64(val), np.float64(derr)
         if f32:
             val, derr = np.float32(val), np.float32(derr)
-        dsets.append(Dataset(val, derr, bins=bins, name=names[k + 1],
-                             what='flux'))
+        dsets.append(Dataset(val, derr, bins=(
+            OrderedDict((key, arr.copy()) for key, arr in bins.items())
+            if decreasing else bins), name=names[k + 1], what='flux'))
         masks.append(mask.reshape(shape))
     return ref, dsets, masks
 
@@ -157,7 +166,7 @@ def external_result(rng):
                         ).evaluate()
 
 
-def gen_result(rng, kind=None, shape=None, plot_safe=False):
+def gen_result(rng, kind=None, shape=None, plot_safe=False, exotic=False):
     '''Returns a dictionary: kind, result, shape, nds, masks (expected failing
     bins per dataset for the dataset comparisons), desc.'''
     # pylint: disable=too-many-locals,too-many-branches,too-many-statements
@@ -184,9 +193,12 @@ def gen_result(rng, kind=None, shape=None, plot_safe=False):
                 'failed'):
         nan = kind in ('equal', 'approx', 'student', 'bonferroni',
                        'holm') and rng.random() < 0.15
-        ref, dss, masks = datasets(rng, shape, nds, fail, nan=nan)
+        decreasing = exotic and rng.random() < 0.15
+        ref, dss, masks = datasets(rng, shape, nds, fail, nan=nan,
+                                   decreasing=decreasing)
         out['masks'] = masks
         out['nan'] = nan
+        out['decreasing_bins'] = decreasing
         if kind == 'equal':
             res = TestEqual(ref, *dss, name='eq').evaluate()
         elif kind == 'approx':
@@ -194,6 +206,12 @@ def gen_result(rng, kind=None, shape=None, plot_safe=False):
         elif kind == 'student':
             res = TestStudent(ref, *dss, name='st', alpha=rng.choice(
                 [0.01, 0.05]), ndf=rng.choice([None, 10, 1000])).evaluate()
+            if exotic and rng.random() < 0.2:
+                # a result built without p-values (they are optional)
+                from valjean.gavroche.stat_tests.student import \
+                    TestResultStudent
+                res = TestResultStudent(res.test, res.tstud)
+                out['no_pvalue'] = True
         elif kind == 'bonferroni':
             res = TestBonferroni(test=TestStudent(ref, *dss, name='st'),
                                  name='bo', alpha=0.05).evaluate()
@@ -239,6 +257,6 @@ def gen_result(rng, kind=None, shape=None, plot_safe=False):
                     name='bl', task_results=trs,
                     by_labels=by_labels).evaluate()
             except vst.TestStatsTestsByLabelsException:
-                return gen_result(rng, kind, shape, plot_safe)
+                return gen_result(rng, kind, shape, plot_safe, exotic)
     out['result'] = res
     return out
